@@ -8,3 +8,20 @@ Theorem C19_dot : forall base target, Forall ordinary (components target) -> For
   (make_relative_path base target = [46] <-> components target = pop_last (components base)).
 Proof. exact PathsProofs.C19_dot. Qed.
 Print Assumptions C19_dot.
+
+(* "however many leading components they share": the answer is the shortest relative path. It climbs exactly out of the part of the base
+   directory the target does not share (n = the longest common prefix: one of the two lists ends there or they differ there) and then
+   descends along the rest of the target; it never climbs above a shared component to come back down through it. *)
+Theorem C19_shortest : forall base target, Forall ordinary (components target) -> Forall ordinary (components base) ->
+  let tp := components target in let bp := pop_last (components base) in
+  make_relative_path base target <> [46] ->
+  exists n, (n <= length tp)%nat /\ (n <= length bp)%nat /\ firstn n tp = firstn n bp
+    /\ (n = length tp \/ n = length bp \/ nth_error tp n <> nth_error bp n)
+    /\ components (make_relative_path base target) = repeat [46; 46] (length bp - n) ++ skipn n tp.
+Proof. exact PathsProofs.C19_shortest. Qed.
+Print Assumptions C19_shortest.
+(* non-vacuity: /a/b/c/base.js -> /a/x/y is "../../x/y" (two climbs, shared prefix "a") *)
+Example C19_shortest_example :
+  make_relative_path [47;97;47;98;47;99;47;122] [47;97;47;120;47;121] = [46;46;47;46;46;47;120;47;121]
+  /\ Forall ordinary (components [47;97;47;120;47;121]) /\ Forall ordinary (components [47;97;47;98;47;99;47;122]).
+Proof. split; [vm_compute; reflexivity|]. split; repeat constructor; discriminate. Qed.
